@@ -90,6 +90,9 @@ func DumpAnchors(c *Ctx) (anchorTable, error) {
 			for _, fd := range Funcs(pkg) {
 				m[fd.Name()] = funcSig(fd.Obj) + " @@ " + strings.Join(callers[fd.Obj], ",") + " @@ " + strings.Join(funcFeatures(pkg, fd), ",")
 			}
+			for k, v := range structFields(pkg) {
+				m["field "+k] = v
+			}
 			out[cfg.name][pkg.PkgPath] = m
 		}
 	}
@@ -184,8 +187,8 @@ func recvAndResults(sig string) string {
 // renamedFuncs pairs recorded names that are missing with the one new function that takes their place: the only new
 // function with the same signature, or — among several, or when the parameters changed as well — the only new function
 // with the same receiver and results that is called by exactly the functions that called the missing one.
-func renamedFuncs(p *Program, base map[string]map[string]string) map[*types.Func]string {
-	out := map[*types.Func]string{}
+func renamedFuncs(p *Program, base map[string]map[string]string) map[types.Object]string {
+	out := map[types.Object]string{}
 	for _, pkg := range p.Pkgs {
 		rec := base[pkg.PkgPath]
 		if rec == nil {
@@ -195,12 +198,47 @@ func renamedFuncs(p *Program, base map[string]map[string]string) map[*types.Func
 		for _, fd := range Funcs(pkg) {
 			cur[fd.Name()] = fd
 		}
+		// renamed fields: a recorded field that is gone while exactly one unknown field of the same struct has its type
+		curFields := structFields(pkg)
+		fieldObjs := structFieldObjs(pkg)
+		for key, typ := range rec {
+			if !strings.HasPrefix(key, "field ") {
+				continue
+			}
+			name := strings.TrimPrefix(key, "field ")
+			if _, still := curFields[name]; still {
+				continue
+			}
+			owner := name[:strings.LastIndex(name, ".")]
+			var cands []string
+			for n2, t2 := range curFields {
+				if strings.HasPrefix(n2, owner+".") && t2 == typ {
+					if _, known := rec["field "+n2]; !known {
+						cands = append(cands, n2)
+					}
+				}
+			}
+			rivals := 0
+			for k2, t2 := range rec {
+				if strings.HasPrefix(k2, "field "+owner+".") && t2 == typ {
+					if _, still := curFields[strings.TrimPrefix(k2, "field ")]; !still {
+						rivals++
+					}
+				}
+			}
+			if len(cands) == 1 && rivals == 1 && fieldObjs[cands[0]] != nil {
+				out[fieldObjs[cands[0]]] = name[strings.LastIndex(name, ".")+1:]
+			}
+		}
 		type missing struct {
 			name, sig, callers string
 			features           []string
 		}
 		var miss []missing
 		for name, entry := range rec {
+			if strings.HasPrefix(name, "field ") {
+				continue
+			}
 			if cur[name] == nil {
 				parts := strings.Split(entry, " @@ ")
 				m := missing{name: name, sig: parts[0]}
@@ -321,18 +359,26 @@ func renamedFuncs(p *Program, base map[string]map[string]string) map[*types.Func
 
 // renameOverlay returns the contents of the files in which identifiers denote a renamed function, with the recorded
 // names put back.
-func renameOverlay(p *Program, ren map[*types.Func]string) (map[string][]byte, error) {
+func renameOverlay(p *Program, ren map[types.Object]string) (map[string][]byte, error) {
 	type edit struct {
 		off, end int
 		text     string
 	}
 	edits := map[string][]edit{}
 	add := func(id *ast.Ident, obj types.Object) {
-		fn, ok := obj.(*types.Func)
-		if !ok {
+		var key types.Object
+		switch x := obj.(type) {
+		case *types.Func:
+			key = x.Origin()
+		case *types.Var:
+			if !x.IsField() {
+				return
+			}
+			key = x.Origin()
+		default:
 			return
 		}
-		old, ok := ren[fn.Origin()]
+		old, ok := ren[key]
 		if !ok {
 			return
 		}
@@ -374,4 +420,36 @@ func renameOverlay(p *Program, ren map[*types.Func]string) (map[string][]byte, e
 		overlay[abs] = src
 	}
 	return overlay, nil
+}
+
+// structFields: "T.f" -> type of field f of the struct type T declared in pkg (embedded fields left out).
+func structFields(pkg *packages.Package) map[string]string {
+	out := map[string]string{}
+	for k, v := range structFieldObjs(pkg) {
+		out[k] = types.TypeString(v.Type(), func(p *types.Package) string { return p.Name() })
+	}
+	return out
+}
+
+func structFieldObjs(pkg *packages.Package) map[string]*types.Var {
+	out := map[string]*types.Var{}
+	scope := pkg.Types.Scope()
+	for _, name := range scope.Names() {
+		tn, ok := scope.Lookup(name).(*types.TypeName)
+		if !ok {
+			continue
+		}
+		st, ok := tn.Type().Underlying().(*types.Struct)
+		if !ok {
+			continue
+		}
+		for i := 0; i < st.NumFields(); i++ {
+			f := st.Field(i)
+			if f.Embedded() {
+				continue
+			}
+			out[name+"."+f.Name()] = f
+		}
+	}
+	return out
 }
